@@ -318,19 +318,15 @@ def frame_problems(enc: bytes):
 
 
 SIG_BODYLEN = "C10-bodylength-not-verified"
-SIG_LENIENT = "C10-lenient-int-in-checksum"
 
 
 def classify_returned(enc: bytes):
     """signatures for a returned raw frame; [] when CheckSum and BodyLength are consistent with the bytes"""
     probs = frame_problems(enc)
     sigs = []
-    hard = probs & {"no-beginstring", "no-checksum-field", "checksum-not-last", "checksum-mismatch"}
+    hard = probs & {"no-beginstring", "no-checksum-field", "checksum-not-last", "checksum-mismatch", "checksum-not-3-digits"}
     for p in sorted(hard):
         sigs.append(("C10-returned-frame:" + p, "returned frame fails the independent check: " + p))
-    if "checksum-not-3-digits" in probs:
-        sigs.append((SIG_LENIENT, "a frame whose CheckSum value is not three digits (read with int(): sign, spaces, "
-                     "underscores, extra/missing zeros) is returned as a message"))
     if probs & {"bodylength-mismatch", "bodylength-not-canonical", "bodylength-missing"}:
         sigs.append((SIG_BODYLEN, "a frame whose BodyLength(9) disagrees with its bytes is returned as a message "
                      "(BodyLength is never compared with the bytes)"))
@@ -538,6 +534,7 @@ def correspondence(ctx):
             elif len(samples) < 6 and (n_eval % 9973 == 1 or (il.startswith("msg") and len(samples) < 2)):
                 samples.append({"input": {"decode": raw.hex(), "label": lab}, "model": ml[:160]})
 
+    ctx.note("decode correspondence done at %.1fs" % ctx.elapsed())
     # --- pyInt directly
     ints = []
     for _ in range(ctx.n(3000, 30000)):
@@ -559,13 +556,13 @@ def correspondence(ctx):
     rd_items = [it for it in items if it[0].startswith(("corpus", "malformed"))]
     arb = [it for it in items if it[0] == "arbitrary"]
     edits = [it for it in items if it[0].startswith("edit")]
-    rd_items += rng.sample(arb, min(len(arb), ctx.n(3000, 30000)))
-    rd_items += rng.sample(edits, min(len(edits), ctx.n(3000, 30000)))
+    rd_items += rng.sample(arb, min(len(arb), ctx.n(2500, 25000)))
+    rd_items += rng.sample(edits, min(len(edits), ctx.n(2500, 25000)))
     v1, v2 = valid_frame(1), valid_frame(2, ["58=hello"])
     rd_cases = []
     for lab, raw in rd_items:
         stream = raw + v1 + v2
-        k = 3 if lab.startswith(("corpus", "malformed")) else 1
+        k = 2 if lab.startswith(("corpus", "malformed")) else 1
         for chunks in chunkings(rng, stream, k)[-k:] if k == 1 and rng.random() < 0.7 else chunkings(rng, stream, k):
             rd_cases.append((lab, chunks))
     reader_flags = {}
@@ -585,6 +582,7 @@ def correspondence(ctx):
         lab, chunks = rd_cases[len(rd_cases) // 2]
         samples.append({"input": {"feed": [c.hex() for c in chunks], "label": lab}, "model": K.run_reader(chunks)[:160]})
 
+    ctx.note("reader correspondence done at %.1fs" % ctx.elapsed())
     tot = sum(branches.values()) or 1
     dist = {
         "inputs_by_class": by_class,
@@ -618,11 +616,6 @@ def finding_witnesses():
     return [
         ("pinned-test-frame", pinned),
         ("nul-inserted-into-value", f[:i] + b"\x00" + f[i:]),
-        ("checksum-sub-plus", f[:-4] + b"+" + f[-3:]),
-        ("checksum-sub-space", f[:-4] + b" " + f[-3:]),
-        ("checksum-ins-zero", f[:-4] + b"0" + f[-4:]),
-        ("checksum-del-zero+next", f[:-4] + f[-3:] + b"8="),
-        ("last-soh-to-space", f[:-1] + b" "),
     ]
 
 
@@ -684,6 +677,7 @@ def oracle(ctx, disagreements, broken):
         stats["reader_outcomes"][outcome] = stats["reader_outcomes"].get(outcome, 0) + 1
         failures += fs
 
+    ctx.note("oracle done at %.1fs" % ctx.elapsed())
     # one failure per (signature, input) is enough; keep the smallest input per signature first
     failures.sort(key=lambda f: (f["signature"], len(json.dumps(f["input"]))))
     stats["failures_by_signature"] = {}
